@@ -245,6 +245,15 @@ impl StakeScen {
             .map(|i| app.instantiate_contract(ok_code, creator.clone(), &Empty {}, &[], format!("hook{i}"), None).unwrap())
             .collect();
         self.hook_bad = app.instantiate_contract(bad_code, creator.clone(), &Empty {}, &[], "hookbad", None).unwrap();
+        // native coins whose denomination is spelled like the stake token's contract address (seeded change C10-20):
+        // a cw20-denominated contract must not take them for the token
+        for a in pool.iter() {
+            app.sudo(cw_multi_test::SudoMsg::Bank(cw_multi_test::BankSudo::Mint {
+                to_address: a.to_string(),
+                amount: vec![coin(60, self.token.as_str())],
+            }))
+            .unwrap();
+        }
         self.app = app;
         self.pool = pool;
         self.init_bal = bal;
@@ -821,6 +830,7 @@ impl Scenario for StakeScen {
             return match rng.below(3) {
                 0 => format!("send {snd} token={} amt={} msg=bond", self.ftoken, rng.below(1100)),
                 1 => format!("exec {snd} receive sender={} amt={} msg=bond", self.gen_addr(rng), 1 + rng.below(100000)),
+                _ if rng.chance(1, 3) => format!("exec {snd} bond funds={}:{}", self.token, 1 + rng.below(20)),
                 _ => format!("exec {snd} bond funds={OTHER_DENOM}:{}", rng.below(1100)),
             };
         }
